@@ -73,6 +73,16 @@ func withContractDeps(patterns []string) []string {
 func loadWorld(patterns []string) (*world, error) {
 	patterns = withContractDeps(patterns)
 	cfg := &packages.Config{Mode: packages.LoadSyntax, Dir: repoDir, BuildFlags: []string{"-tags=verif"}}
+	for _, p := range patterns {
+		if strings.HasSuffix(p, "pkg/auth") || strings.HasSuffix(p, "pkg/server") {
+			src, err := genAuthTables()
+			if err != nil {
+				return nil, fmt.Errorf("cannot extract the permission tables: %v", err)
+			}
+			cfg.Overlay = map[string][]byte{filepath.Join(repoDir, "pkg/auth/zz_verif_tables_generated.go"): []byte(src)}
+			break
+		}
+	}
 	pkgs, err := packages.Load(cfg, patterns...)
 	if err != nil {
 		return nil, err
